@@ -89,4 +89,20 @@ PROPS = {
   trusted_base=["net/url fragment percent-decoding (modelled with UTF-8 decoding in uri/Uri.v; compared on every run)", "strconv.Atoi replaced by the model's digit parser (agreement checked by the ptr family)"],
   assumptions=[],
  ),
+
+ "C05": dict(
+  families=[dict(name="schemago", model="roundtrip", quick=2000, thorough=50000),
+            dict(name="docrt", model="docrt", quick=2000, thorough=50000)],
+  rule="schemago: Schema values with 1-5 randomly chosen fields per node set in every way the Go type allows (nil/empty/one/several containers, pointer to nil, Go ints inside []any, nested schemas to depth 2), exclusivity rules respected 9 times in 10, Marshal -> Unmarshal -> Marshal with the laws (same bytes without PropertyOrder / same JSON value with it; same verdict vector on 15 pool instances) evaluated on the package's outputs and the marshalled document compared with the model's; "
+       "docrt: documents of both drafts (G-val) and hostile documents (every keyword with values of every JSON type, nulls, integer spellings 2.0 / 1e2 / 2^31, case variants) through Unmarshal -> Marshal, outcome classes and re-marshalled document compared with the model, re-acceptance and verdict laws on the implementation; non-trivial: >= 3 populated fields; distinct by output hash",
+  partial="the general round-trip theorem over the whole Schema record is not proved (only boolean forms, determinism of map outputs, the order formula); the direction JSON -> Go -> JSON relies on the correspondence of the generated codec model and on the laws",
+  trusted_base=["encoding/json text layer and struct codec rules transcribed in sch/CodecBase.v and the generated sch/Codec.v", "float64 formatting/parsing (numbers compared by value)"],
+  assumptions=["schemas that Resolve refuses are not compared by verdict vector (they accept and reject nothing)", "nil children inside []*Schema / map[string]*Schema are not generated (trees)"],
+ ),
+ "C18": dict(
+  families=[dict(name="decor", model="decor", quick=2500, thorough=60000)],
+  rule="G-val documents of both drafts, decorated at random subschemas (0-2 decorations each) with: title/description/$comment, default (any JSON), examples, deprecated/readOnly/writeOnly, format/contentEncoding/contentMediaType, contentSchema (asserting-looking schemas), an unreferenced $defs/definitions entry, unknown names (incl. '', 'x y', U+017F), and 25 case variants of standard keywords with values of every JSON type; 10 instances (guided + mutations); the law 'same Unmarshal acceptance, same Resolve outcome, same verdict vector' is evaluated on the package for base vs decorated, and both documents go through the model; non-trivial: at least one decoration applied; distinct by (keyword multiset, decoration kinds)",
+  trusted_base=["regexp oracle", "encoding/json text layer"],
+  assumptions=["a legacy 'definitions' block next to '$defs' is not generated (known finding O-16: refused by basicChecks)"],
+ ),
 }
